@@ -54,6 +54,7 @@ def run(chk):
     chk.section("places", lambda: l345(chk))
     chk.section("cross-block", lambda: l6(chk))
     chk.section("borrow-shadowing", lambda: borrow_shadowing(chk))
+    chk.section("projections-of-temporaries", lambda: projections(chk))
     for i in range(NCH):
         chk.section(f"bounded-{i}", lambda i=i: bounded(chk, i))
     chk.expected_min_obligations = 40
@@ -63,6 +64,106 @@ def run(chk):
         "L6 takes the place-level liveness result as given (its fixpoint property is C09) and BBLinearityChecker.check's per-block scopes as built with the real Scope API; that the per-block rules add up to the path statement is decided by the bounded layer",
     ]
     chk.not_covered += ["subscripted places (array elements), comprehensions, nested functions and modifier blocks in the linearity checker", "check_cfg_linearity with borrowed parameters whose exit is unreachable (live_default) and struct places split across blocks"]
+
+
+REPLAY_PROJ = r'''
+import tempfile, importlib.util, os, sys, shutil
+from guppylang_internals.error import GuppyError
+src = """from guppylang import guppy
+from guppylang.std.builtins import owned
+from guppylang.std.quantum import qubit, discard
+@guppy.struct
+class In:
+    q: qubit
+    r: qubit
+@guppy.struct
+class Out:
+    a: In
+    n: int
+@guppy.declare
+def make_out() -> Out: ...
+@guppy.declare
+def make_pair() -> tuple[int, tuple[qubit, qubit]]: ...
+@guppy
+def field_of_field() -> None:
+    discard(make_out().a.q)
+@guppy
+def elem_of_elem() -> None:
+    discard(make_pair()[1][0])
+@guppy
+def fine() -> int:
+    return make_out_classical().n
+@guppy.struct
+class C:
+    n: int
+    m: int
+@guppy.declare
+def make_out_classical() -> C: ...
+"""
+d = tempfile.mkdtemp(dir=os.environ.get("TMPDIR", "/var/tmp")); fn = os.path.join(d, "replay_c06p.py"); open(fn, "w").write(src)
+spec = importlib.util.spec_from_file_location("replay_c06p", fn); m = importlib.util.module_from_spec(spec); sys.modules["replay_c06p"] = m
+spec.loader.exec_module(m)
+res = {}
+for name in ("field_of_field", "elem_of_elem", "fine"):
+    try:
+        getattr(m, name).check(); res[name] = "accepted"
+    except GuppyError as ex:
+        res[name] = "rejected:" + type(ex.error).__name__
+shutil.rmtree(d, ignore_errors=True)
+print(json.dumps({"violates": res["field_of_field"] == "accepted" or res["elem_of_elem"] == "accepted" or res["fine"] != "accepted", "observed": res,
+                  "required": "projecting one qubit out of a temporary struct / tuple that holds another one leaks the other: rejected"}))
+'''
+
+
+def projections(chk):
+    """BBLinearityChecker.visit_FieldAccessAndDrop / visit_TupleAccessAndDrop: a field / element projected out of a value
+    that is NOT a place — everything else in the value is gone afterwards, so every OTHER component must be droppable,
+    at every level of a chain of projections (`f().a.q`: the siblings of `a` in the outer value AND the siblings of `q`
+    in `a`); the projected-from value itself is checked first, exactly once."""
+    import itertools
+    e = mk_engine(chk)
+    for q in ("BBLinearityChecker.visit_FieldAccessAndDrop", "BBLinearityChecker.visit_TupleAccessAndDrop"):
+        e.func_info(LC, q)
+    m = e.module(LC)
+    for n_ in ("UnnamedFieldNotUsedError", "UnnamedTupleNotUsedError"):
+        def mk(it2, a, k, n_=n_):
+            o = SObj(ClassVal("Diag", builtin=True), {"kind": n_, "args": tuple(a)})
+            o.fields["add_sub_diagnostic"] = Builtin("add_sub_diagnostic", lambda *x: None)
+            return o
+        e.models[f"{ERR}:{n_}"] = mk
+        e.models[f"{ERR}:{n_}.Fix"] = lambda it2, a, k: "NOTE"
+    D = [[z3.Bool(f"droppable_l{lv}_c{c}") for c in range(3)] for lv in range(3)]
+    for depth in (1, 2, 3):
+        for kinds in itertools.product(("field", "elem"), repeat=depth):
+            for picks in itertools.product(range(3), repeat=depth) if depth == 1 else [(0,) * depth, (1, 2, 0)[:depth], (2, 0, 1)[:depth]]:
+                def t(it, depth=depth, kinds=kinds, picks=picks):
+                    nm = e.module("guppylang_internals.nodes")
+                    FAD, TAD = it.lookup_global(nm, "FieldAccessAndDrop"), it.lookup_global(nm, "TupleAccessAndDrop")
+                    BB = it.lookup_global(m, "BBLinearityChecker")
+                    log = []
+                    chkr = SObj(BB, {"scope": None, "func_name": "f", "func_inputs": {}, "globals": None})
+                    chkr.fields["visit_Leaf"] = Builtin("visit_Leaf", lambda n, *a, **k: log.append("leaf"))
+                    node = SObj(ClassVal("Leaf", builtin=True), {})
+                    # level 0 is the outermost value; the chain projects inwards
+                    for lv in range(depth):
+                        tys = [SObj(ClassVal("Ty", builtin=True), {"droppable": SBool(D[lv][c]), "c": c}) for c in range(3)]
+                        if kinds[lv] == "field":
+                            flds = [SObj(ClassVal("StructField", builtin=True), {"name": f"f{c}", "ty": tys[c]}) for c in range(3)]
+                            node = it.call(FAD, [], {"value": node, "struct_ty": SObj(ClassVal("StructTy", builtin=True), {"fields": flds}), "field": flds[picks[lv]]})
+                        else:
+                            node = it.call(TAD, [], {"value": node, "tuple_ty": SObj(ClassVal("TupleTy", builtin=True), {"element_types": tys}), "index": picks[lv]})
+                    it.call_method(chkr, "visit", [node])
+                    return log
+
+                def post(p, depth=depth, picks=picks):
+                    leak = z3.Or(*[z3.Not(D[lv][c]) for lv in range(depth) for c in range(3) if c != picks[lv]])
+                    if p.kind == "raise":
+                        k_ = raised_kind(p)
+                        return z3.And(leak, z3.BoolVal(p.raised(e, "GuppyError") and k_ in ("UnnamedFieldNotUsedError", "UnnamedTupleNotUsedError")))
+                    return z3.And(z3.Not(leak), z3.BoolVal(p.kind == "return" and p.value == ["leaf"]))
+                chk.prove_paths(f"projection-of-a-temporary[{'.'.join(f'{k_}{i}' for k_, i in zip(kinds, picks))}]:rejected<=>some-other-component-at-some-level-is-not-droppable/\\the-value-is-checked-once",
+                                e.explore(t), post, func=f"{LC}:BBLinearityChecker.visit_FieldAccessAndDrop", replay=lambda m_: {"script": REPLAY_PROJ, "input": {}})
+    chk.use_engine(e)
 
 
 def world(e, it, flags):
